@@ -1,6 +1,6 @@
 """C05 - Pedersen commitment equals sum v_i*G_i and is linear."""
 import ecref as E
-from vlib import diff, std_replay
+from vlib import diff, std_replay, shared_use_phase
 
 SPEC = {
     "rule": "case = scalar vector given to IPAConfig.Commit, compared with the model's sum_i v_i*G_i over the model's own "
@@ -85,7 +85,11 @@ def run(ctx):
         add("s:" + ",".join("%d=%x" % (rng.randrange(256), rng.randrange(R)) for _ in range(m)), "sparse-random")
     add("c:%x" % (R - 1), "all-max")
     add("z", "zero")
-    diff(ctx, lines, "Commit vs sum v_i G_i", cls, nt)
+    impl0, _ = diff(ctx, lines, "Commit vs sum v_i G_i", cls, nt)
+    # Commit is a function of its input: the same vectors committed by several goroutines at once
+    # (one shared slice per vector) give the sequential results
+    pick = [j for j, l in enumerate(lines) if cls[j] in ("dense-random", "length-256", "length-255", "all-max", "special")][:8]
+    shared_use_phase(ctx, [lines[j] for j in pick], [impl0[j] for j in pick], "Commit", g=8, repeat=8)
     # (1b) the same Go results against the ALGORITHM-level model (Coq model of the precomputed-table
     # MSM: window recoding with carry, table lookups, negation), on a sample biased to the 8-bit tables
     # (the 16-bit tables of points 0..4 are built lazily by the model: 2^15 entries x 16 windows each)
